@@ -140,4 +140,12 @@ def exLine : Buf := "<sip:a@b>;expires=5, <sip:c@d>\r\nX".toUTF8.data
 example : (parseAllContactValues exLine 0 { vals := #[] }).2.1 = Err.ok := by decide +kernel
 example : (parseAllContactValues exLine 0 { vals := #[] }).2.2.n = 2 := by decide +kernel
 
+/-! ### first / last contact retrievable (proved in `Sipsp.Proofs.CapacityExtra`) -/
+
+/-- with at least one value parsed, `GetContact(0)` is never nil, whatever the capacity -/
+theorem first_contact_retrievable : type_of% @Sipsp.getContact_first_isSome := @Sipsp.getContact_first_isSome
+
+/-- with at least one value parsed, `GetContact(N-1)` is never nil, whatever the capacity -/
+theorem last_contact_retrievable : type_of% @Sipsp.getContact_last_isSome := @Sipsp.getContact_last_isSome
+
 end Sipsp.C13
